@@ -1,0 +1,3 @@
+//! Verification hooks (`--cfg folo_verif` only): never compiled into normal builds.
+
+pub use crate::verif_sync::{AtomicOp, Hooks, install};
